@@ -618,6 +618,82 @@ Definition csv_read (reserved : list text) (nc : ncfg) (isdec : N -> bool) (d : 
   end.
 
 (* ------------------------------------------------------------------------------------------ *)
+(* vocabulary of the property statements *)
+
+(* records paired with their 1-based position *)
+Fixpoint number_from (n : N) (rs : list rec) : list (N * rec) :=
+  match rs with [] => [] | r :: t => (n, r) :: number_from (n + 1) t end.
+
+(* every run is non-empty and all its records have the descriptor of the first *)
+Definition run_uniform (c : cfg) (run : list rec) : Prop :=
+  match run with
+  | [] => False
+  | r :: t => Forall (fun r' => desc_eqb (rec_desc c r) (rec_desc c r') = true) t
+  end.
+(* consecutive runs have different descriptors (the runs are maximal) *)
+Fixpoint adjacent_differ (c : cfg) (runs : list (list rec)) : Prop :=
+  match runs with
+  | [] => True
+  | run1 :: rest =>
+      match run1, rest with
+      | r1 :: _, (r2 :: _) :: _ => desc_eqb (rec_desc c r1) (rec_desc c r2) = false
+      | _, _ => True
+      end /\ adjacent_differ c rest
+  end.
+
+(* records with equal descriptors have the same selected field names (true of real records: the
+   slots of a record class are a function of its descriptor) *)
+Definition keys_agree (c : cfg) (o : opts) (rs : list rec) : Prop :=
+  forall r r', In r rs -> In r' rs -> desc_eqb (rec_desc c r) (rec_desc c r') = true ->
+    map i_key (selected o r) = map i_key (selected o r').
+
+(* all text of a record is encodable under the error handler *)
+Definition item_ok (se : bool) (it : item) : bool :=
+  forallb (cp_ok se) (i_key it) && forallb (cp_ok se) (i_type it)
+  && forallb (cp_ok se) (value_text it) && forallb (cp_ok se) (cell_of it) && forallb (cp_ok se) (i_repr it).
+Definition prec_ok (se : bool) (p : prec) : bool := forallb (cp_ok se) (p_name p) && forallb (item_ok se) (p_items p).
+Definition rec_ok (se : bool) (r : rec) : bool :=
+  match r with
+  | Plain p => prec_ok se p
+  | Grouped n ms => forallb (cp_ok se) n && forallb (prec_ok se) ms
+  end.
+
+Definition lf_count (s : text) : nat := count_occ_N LF s.
+Definition sum_nat (l : list nat) : nat := fold_right Nat.add O l.
+Definition starts_with_underscore (s : text) : bool := match s with 95 :: _ => true | _ => false end.
+Definition simple_name_char (nc : ncfg) (c : N) : bool := is_word c || existsb (N.eqb c) (n_chars nc).
+Fixpoint N_range (lo : N) (len : nat) : list N :=
+  match len with O => [] | S k => lo :: N_range (lo + 1) k end.
+
+(* printing a parsed template back to template syntax, and the templates for which that is exact *)
+Definition esc_brace (c : N) : text := if c =? LB then [LB; LB] else if c =? RB then [RB; RB] else [c].
+Definition unparse_item (it : titem) : text :=
+  match it with
+  | TLit s => flat_map esc_brace s
+  | TField n cv sp =>
+      [LB] ++ n ++ (match cv with Some c => [33; c] | None => [] end)
+      ++ (match sp with [] => [] | _ :: _ => 58 :: sp end) ++ [RB]
+  end.
+Definition name_char (c : N) : bool :=
+  negb ((c =? RB) || (c =? 58) || (c =? 33) || (c =? LB) || (c =? 91) || (c =? 46)).
+Definition spec_char (c : N) : bool := negb ((c =? RB) || (c =? LB)).
+Definition conv_ok (cv : option N) : bool :=
+  match cv with None => true | Some c => (c =? 114) || (c =? 115) || (c =? 97) end.
+Definition is_lit (it : titem) : bool := match it with TLit _ => true | _ => false end.
+Definition item_canon (it : titem) : bool :=
+  match it with
+  | TLit s => match s with [] => false | _ => true end
+  | TField n cv sp => name_ok n && forallb name_char n && conv_ok cv && forallb spec_char sp
+  end.
+(* no empty literal, no two literals in a row, well-formed fields *)
+Fixpoint tpl_canon (l : list titem) : bool :=
+  match l with
+  | [] => true
+  | it :: t => item_canon it && tpl_canon t
+               && match it, t with TLit _, TLit _ :: _ => false | _, _ => true end
+  end.
+
+(* ------------------------------------------------------------------------------------------ *)
 (* literals and checkers used by the correspondence cases *)
 
 Fixpoint tx (s : String.string) : text :=
